@@ -128,7 +128,7 @@ def run(F, rep, tier):
         m = [m for m, _ in find_hir(fs["body"], lambda n: n.get("k") == "Match" and n.get("src") == "Normal")]
         pairs = []
         for arm in (m[0]["arms"] if m else []):
-            lits = [p[1] for p in hirflow.Flow.pat_ctors(arm["p"]) if isinstance(p, tuple)]
+            lits = [p[1] for p in hirflow.Flow.pat_ctors(arm["p"]) if isinstance(p, tuple) and p[0] == "lit"]
             vs = [x["path"].split("::")[-1] for x, _ in find_hir(arm["b"], lambda n: n.get("k") == "Path" and (n.get("path") or "").startswith(BIF + "::"))]
             for s in lits:
                 pairs.append((s, vs))
